@@ -51,6 +51,14 @@ Theorem C03_literal_consumes_a_prefix : forall s c fuel cd members named cp dept
 Proof. exact nested_literal_consumes_a_prefix. Qed.
 Print Assumptions C03_literal_consumes_a_prefix.
 
+(* ... it makes progress: handed a member of its own path it consumes at least that member, whenever it returns at all ... *)
+Theorem C03_literal_makes_progress : forall s c fuel cd m ms named cp depth hint ts rest p,
+  render_child s c fuel cd (m :: ms) named cp depth hint = Ok (ts, rest) ->
+  nth_error (child_path_strs cp) depth = Some p -> under p m = true ->
+  exists consumed, m :: ms = (m :: consumed) ++ rest.
+Proof. exact nested_literal_makes_progress. Qed.
+Print Assumptions C03_literal_makes_progress.
+
 (* ... the top-level literal consumes everything (no member is dropped by the descent) ... *)
 Theorem C03_top_level_consumes_all : forall s c fuel members named ts rest,
   init_inner s c fuel members named None = Ok (ts, rest) -> rest = [].
